@@ -112,7 +112,8 @@ def run(ctx):
     reqs = []
     for c in cases:
         ex = [m['name'] for m in c['case']['spec0']['apps'][0]['models']]
-        reqs.append({'op': 'optimize', 'existing': ex, 'mutations': [sigs.model_mutation(m) for m in c['case']['muts']]})
+        reqs.append({'op': 'optimize', 'existing': ex, 'copies': bool(ctx.variant.get('optimizer_copies')),
+                     'mutations': [sigs.model_mutation(m) for m in c['case']['muts']]})
     outs = ctx.driver.ask(reqs) if ctx.driver else [None] * len(cases)
     res = run_workers(cases, seeds, ctx)
     w_defs = w_set = None
